@@ -2385,7 +2385,7 @@ func ruleMdiffPairs(c *Ctx) {
 	ruleTrimAmount(c)
 
 	P := c.P
-	c.rule("R-COND-MIRROR", 2, "a same-chunk range test on one side is accompanied by the same test on the other side")
+	c.rule("R-COND-MIRROR", 0, "a same-chunk range test on one side is accompanied by the same test on the other side")
 	c.rule("R-CONTEXT-CONTIGUOUS", 1, "in findContext the edge taken on unequal lines leaves the loop")
 	c.rule("R-JOIN-ORDER", 1, "a span is grown in place by the neighbour's span, in that order, and the joined edit is then dropped from its list")
 	side := map[string]string{"LStart": "L", "LEnd": "L", "RStart": "R", "REnd": "R"}
